@@ -109,7 +109,8 @@ Definition representable_call (st : wstate) (c : wcall) : Prop :=
       name_wf ns /\ name_start_ok ns /\ url <> URL_XML /\ url <> URL_XMLNS /\ url <> [] /\ url <> URL_E57 /\
       ~ registered (ws_exts st) ns /\ ~ (exists ns', In (mkExtension ns' url) (ws_exts st))
   | SubPc ps, PcAddPoint vs => ps_finalized ps = false /\ representable_point (ps_proto ps) vs
-  | SubPc ps, PcFinalize => ps_finalized ps = false
+  | SubPc ps, PcFinalize =>
+      ps_finalized ps = false /\ custom_limits_ok (ps_custom_il ps) (ps_custom_cl ps) (ps_desc ps) = true
   | SubIm im fin, ImAddVisualReference _ _ _ _ _ => fin = false
   | SubIm im fin, ImAddPinhole _ _ _ _ | SubIm im fin, ImAddSpherical _ _ _ _
   | SubIm im fin, ImAddCylindrical _ _ _ _ => fin = false /\ im_projection im = None
@@ -178,7 +179,10 @@ Proof.
     destruct (pc_add_point_ok_inv values ps l l1 ps1 E1) as (Hf & Hv & _).
     split; [exact Hf|]. destruct Hs as (Hp & _). rewrite Hp in Hv. apply values_ok_representable. exact Hv.
   - (* PcFinalize *)
-    unfold pc_finalize in Hrun. destruct (ps_finalized ps); [|reflexivity].
+    unfold pc_finalize in Hrun.
+    destruct (ps_finalized ps);
+      [rewrite run_bind in Hrun; cbn [wret wrun_spec fst snd] in Hrun; exfalso; inversion Hrun; subst; apply (Hne EInvalid); reflexivity|].
+    destruct (custom_limits_ok (ps_custom_il ps) (ps_custom_cl ps) (ps_desc ps)); cbn [negb] in Hrun; [split; reflexivity|].
     rewrite run_bind in Hrun. cbn [wret wrun_spec fst snd] in Hrun. exfalso. inversion Hrun; subst. apply (Hne EInvalid). reflexivity.
   - (* visual reference *)
     destruct fin; [cbn [wret wrun_spec] in Hrun; exfalso; apply (Bad _ Hrun)|reflexivity].
@@ -348,7 +352,9 @@ Proof.
   unfold wapi_step in E3. rewrite Ho2 in E3. unfold st1 in E3. cbn [set_sub ws_open] in E3.
   rewrite Hopen, Hsub2 in E3. cbn [negb] in E3.
   destruct Hinv2 as [Hok2' Hpi2]. rewrite Hsub2 in Hpi2.
-  destruct (pc_finalize_step ps2 l2 Hpi2 Hok2') as [(Hff & _)|(_ & l4 & ps4 & d & Hrf & _ & _ & _ & Hd)]; [congruence|].
+  destruct (pc_finalize_step ps2 l2 Hpi2 Hok2') as [(_ & Hrf)|(_ & _ & l4 & ps4 & d & Hrf & _ & _ & _ & Hd)].
+  { exfalso. rewrite run_bind, Hrf in E3. cbn [fst snd wret wrun_spec] in E3. inversion E3; subst.
+    inversion Hok3 as [|? ? Hx _]. discriminate. }
   rewrite run_bind, Hrf in E3. cbn [fst snd wret wrun_spec] in E3. inversion E3; subst l3 st3 rs3. clear E3.
   cbn [ws_pcs]. exists d, (ps_bounds ps2), cl, (w_section_offset (ps_w ps2)).
   split; [rewrite Hpcs2; reflexivity|]. split; [exact Hv|]. split; [exact Hcl|].
@@ -590,3 +596,27 @@ Example ex_results :
     | _ => False
     end.
 Proof. eexists. eexists. split; [vm_compute; reflexivity|]. vm_compute. repeat split; reflexivity. Qed.
+
+(** C14, limits, second half (repair e77b8fe): limits set by the caller that are not complete
+    make [finalize] fail with Invalid; nothing is pushed, the writer is unchanged. *)
+Theorem incomplete_override_rejected : forall gen_xml lib_version st l ps,
+  ws_open st = true -> ws_sub st = SubPc ps -> ps_finalized ps = false ->
+  custom_limits_ok (ps_custom_il ps) (ps_custom_cl ps) (ps_desc ps) = false ->
+  wrun_spec (wapi_step gen_xml lib_version st PcFinalize) l = (l, Ok (st, CrErr EInvalid)).
+Proof.
+  intros gen_xml lib_version st l ps Ho Hs Hf Hc. unfold wapi_step. rewrite Ho, Hs. cbn [negb].
+  rewrite run_bind. unfold pc_finalize. rewrite Hf, Hc. cbn [negb wret wrun_spec fst snd].
+  destruct st; cbn in *. subst. reflexivity.
+Qed.
+
+(** when the check fails: a setter was called and what it stored lacks a member *)
+Lemma custom_limits_ok_false cil ccl d : custom_limits_ok cil ccl d = false ->
+  (cil = true /\ exists l, pc_intensity_limits d = Some l /\ il_complete l = false) \/
+  (ccl = true /\ exists l, pc_color_limits d = Some l /\ cl_complete l = false).
+Proof.
+  unfold custom_limits_ok. intros H. apply andb_false_iff in H as [H|H].
+  - left. destruct cil; [|discriminate]. split; [reflexivity|].
+    destruct (pc_intensity_limits d) as [l|]; [|discriminate]. eauto.
+  - right. destruct ccl; [|discriminate]. split; [reflexivity|].
+    destruct (pc_color_limits d) as [l|]; [|discriminate]. eauto.
+Qed.
